@@ -340,6 +340,36 @@ def d2c_handshake_replies_do_not_stamp_liveness(ctx):
     ctx.chk.floor("D2", "last_received := Some(..) stores in process_uplink_packet", n, 1)
 
 
+def d3b_every_pass_retries_every_link(ctx):
+    """"retries continue indefinitely": the retry decision (is_timed_out & should_attempt_reconnect) is made for every link on every
+    housekeeping pass - the test sits on the element of a loop over the whole connection slice, the loop has no early exit, and no
+    return precedes it (a global "all links failed" exit in front of the loop would stop the retries of an established session)."""
+    from ..ctx import loop_of_element
+    from ..expr import strip_old
+    from ..roles import upvar_index
+    hk = ctx.fn(HKC, "D3")
+    if not hk:
+        return
+    fa = ctx.fa(hk)
+    cfg = ctx.cfg(hk)
+    ui = upvar_index(hk, "connections")
+    tests = calls_to(hk, stable=CONN + "::should_attempt_reconnect")
+    if len(tests) != 1 or ui is None:
+        ctx.chk.missing("D3", "handle_housekeeping: the should_attempt_reconnect test / the connection slice", "%d test(s)" % len(tests))
+        return
+    tb, tt = tests[0]
+    link = strip_old(fa.val_operand(tt["args"][0], (tb, len(hk.blocks[tb]["stmts"]))))
+    ok = full_slice_element(link, ("upvar", ui)) is not None
+    lp = loop_of_element(hk, fa, link) if ok else None
+    ctx.chk.ob("D3", "the retry test is made on the element of a loop over the whole connection slice", ok and lp is not None, show(link, hk.names)[:100], key="D3:retry-loop-over-all-links")
+    if not lp:
+        return
+    ctx.chk.ob("D3", "the retry loop has no early exit (a failure on one link cannot end the pass)", not lp["exits"], "exits %s" % lp["exits"][:3], key="D3:retry-loop-no-early-exit")
+    pre = [r for r in cfg.returns if not cfg.dominates(lp["none"], r)]
+    ctx.chk.ob("D3", "no return precedes the retry loop (every housekeeping pass reaches it)", not pre and not cfg.returns_reachable_avoiding({lp["head"]}),
+               "returns not after the loop: %s" % pre, key="D3:retry-loop-always-reached")
+
+
 def d2d_hearing_anything_refreshes_liveness(ctx):
     """"torn down only when it has heard nothing for the configured timeout": what counts as hearing is every datagram that is not
     a handshake reply, on every path of the receive handler (an early return for, say, a keepalive echo without an RTT sample would
@@ -355,7 +385,7 @@ def d2b_connected_links_have_a_receive_stamp(ctx):
     C10.connected_implies_received(ctx, "D2")
 
 
-RULES = [d2d_hearing_anything_refreshes_liveness, d2b_connected_links_have_a_receive_stamp, d2c_handshake_replies_do_not_stamp_liveness, d7_backoff_does_not_accumulate, d1_who_tears_down, d2_liveness_predicate, d3_retry_spacing, d4_clean_rejoin, d5_survivors, d6_configured_timeout_applied]
+RULES = [d3b_every_pass_retries_every_link, d2d_hearing_anything_refreshes_liveness, d2b_connected_links_have_a_receive_stamp, d2c_handshake_replies_do_not_stamp_liveness, d7_backoff_does_not_accumulate, d1_who_tears_down, d2_liveness_predicate, d3_retry_spacing, d4_clean_rejoin, d5_survivors, d6_configured_timeout_applied]
 
 
 def run(ctx):
